@@ -1,11 +1,13 @@
 import Morlock.Driver.Score
 import Morlock.Driver.Chess
 import Morlock.Driver.Game
+import Morlock.Driver.Fen
 open Morlock.Driver in
 def dispatchPure (toks : List String) : String :=
   match toks with
   | "score" :: args => scoreOp args
   | "chess" :: args => chessOp args
+  | "fen" :: args => fenOp args
   | "published" :: _ => "ok ## ok"   -- the harness compared the implementation with a published constant
   | _ => "bad-op"
 
